@@ -469,6 +469,49 @@ def pron_rule(ctx, P):
         ctx.check(r, bad is None, key(f, "pronlen@%d" % f.line(c)), f.where(c), "a line reaches dict_add_word with the pronunciation length `%s`, which nothing on the path excludes from being 0: a word without phones enters the dictionary and the first grammar or alignment that uses it reads a phone that is not there" % bad)
 
 
+def unescape_rule(ctx, P):
+    """the JSON value un-escaper works on a span (in, len) inside the configuration text: it may look one byte
+    past the byte it is at (the byte after a span is at worst the text's terminator), never further"""
+    from .. import symx
+    r = ctx.rule("SPAN.unescape", "unescape reads its input span only at the loop position and one byte ahead, under a loop bounded by the span's length, and hands the span to no function that reads on from a position", floor=3)
+    f = P.fn("unescape", "config.c")
+    ctx.touch(f)
+    src, ln = f.params[1][0], f.params[2][0]
+    loops = [l_ for l_ in f.find("For") + f.find("While")]
+    if len(loops) != 1:
+        raise AnalysisIncomplete("unescape: expected one loop over the span (found %d)" % len(loops))
+    cnd = f.ch(loops[0])[1] if f.k(loops[0]) == "For" else f.ch(loops[0])[0]
+    rr = paths.rel(f, cnd, True, subst=False)
+    ctx.check(r, rr is not None and rr[1] == "<" and rr[2] == ln, key(f, "bounded"), f.where(loops[0]), "the loop over the span is not bounded by its length `%s` (%s)" % (ln, rr))
+    iv = rr[0] if rr else "i"
+    far, handed, nread = None, None, 0
+    symx.LOG_READS = True
+    try:
+        pts = symx.loop_paths(f, loops[0], P)
+    finally:
+        symx.LOG_READS = False
+    for pt in pts:
+        for ev_ in pt.events:
+            if ev_[0] == "read":
+                m_ = re.match(r"^%s\[(.*)\]$" % re.escape(src), symx.plain(ev_[1]))
+                if ev_[1] == "*" + src or ev_[1] == "*(%s)" % src:
+                    m_ = re.match("(0)", "0")
+                if m_:
+                    nread += 1
+                    d_ = lin.p_add(lin.p_parse(m_.group(1)), lin.p_atom(iv), -1)
+                    c_ = d_.get((), 0) if all(k_ == () for k_ in d_) else None
+                    if c_ is None or c_ < 0 or c_ > 1:
+                        far = (ev_[1], ev_[3])
+            elif ev_[0] == "call":
+                for a_ in ev_[2]:
+                    if any(src in mono for mono in lin.p_parse(a_)):
+                        handed = (ev_[1], a_, ev_[3])
+    if nread < 2:
+        raise AnalysisIncomplete("unescape: reads of the span not found (%d)" % nread)
+    ctx.check(r, far is None, key(f, "lookahead"), f.where(far[1]) if far else f.where(f.root), "unescape reads `%s`: more than one byte past the position the loop bound covers; for a span that ends the configuration text this is past its terminator" % (far[0] if far else ""))
+    ctx.check(r, handed is None, key(f, "handed-on"), f.where(handed[2]) if handed else f.where(f.root), "unescape hands `%s` to %s, which reads on from there without knowing where the span ends" % ((handed[1], handed[0]) if handed else ("", "")))
+
+
 # -------------------------------------------------------------------------------- growth loops
 def growth_rule(ctx, P):
     r = ctx.rule("LOOP.growth", "a capacity that is doubled until it reaches a required size is positive when the loop is entered: every definition reaching the loop is a positive constant or a positive multiple of a value tested non-zero, and the doubled value cannot wrap to a non-positive one before it reaches the limit", floor=1)
@@ -844,6 +887,9 @@ def run(ctx):
                 "fixture fx_span_bad (atoi and constant-length strncmp on a line of an s3file) must be reported, fx_span_good (length tested first) must not (got %s)" % col.bads)
     num_rule(ctx, P)
     pron_rule(ctx, P)
+    unescape_rule(ctx, P)
+    from . import c09
+    c09.align_text_rule(ctx, P)     # the alignment text is untrusted input too: states sized by the tokenisation that adds the arcs
     growth_rule(ctx, P)
     emit_rule(ctx, P)
     config_rule(ctx, P)
